@@ -31,6 +31,7 @@ class MoveSession:
         self.w = gridw.RealWorld(desc)
         kw = dict(grid=self.w.grid, agents=self.w.agents)
         self.actors = {"move": MoveActor(**kw), "cross": CrossMoveActor(**kw), "drift": DriftMoveActor(**kw)}
+        self.w.finish()
         self.stat = self.w.stat_wire()
 
     def call(self, kind, a, arg, rep=None):
@@ -200,7 +201,7 @@ class MoveProp(core.Prop):
         # random op sequences
         nworlds = 300 if quick else 10000
         for _ in range(nworlds):
-            desc = gridw.gen_world(rng, kinds=mover_kinds)
+            desc = gridw.maybe_enc0(rng, gridw.gen_world(rng, kinds=mover_kinds), 0.08)
             try:
                 sess = MoveSession(desc)
             except ValueError:
